@@ -57,6 +57,7 @@ package beacon
 //@   requires lowerLayer(a.Store)
 //@   requires stored(a.Store, a.last.Round) && sigOf(a.Store, a.last.Round) == a.last.Signature
 //@   modifies a.last, stored(a.Store), sigOf(a.Store), prevOf(a.Store), cannotRead(a.Store), b.PreviousSig
+//@   call Put#0: assert [C02:the-check-and-the-write-are-one-critical-section] held(a.Mutex)
 //@   ensures [C02:last-is-stored-invariant] stored(a.Store, a.last.Round) && sigOf(a.Store, a.last.Round) == a.last.Signature
 //@   ensures [C02:already-stored-means-present] is(err, ErrBeaconAlreadyStored) ==> stored(a.Store, b.Round) && bytesEq(sigOf(a.Store, b.Round), b.Signature)
 //@   ensures [C02:only-last-plus-one-accepted] err == nil ==> b.Round == old(a.last.Round) + 1
@@ -142,6 +143,11 @@ package beacon
 
 //@ func (*partialCache).FlushRounds(c, round)
 //@   props C03 C12
+// the inner filter that takes the flushed round off a signer's list looks at every entry of the list (it must not stop at
+// the flushed id: the ids behind it belong to partials that stay cached and have to stay counted)
+//@   loop 2: complete [C12:the-counter-filter-visits-every-id-of-the-signers-list]
+//@   loop 1: complete [C12:every-signer-of-a-flushed-round-has-its-counter-updated]
+//@   loop 0: complete [C12:every-round-cache-is-examined-by-a-flush]
 //@   requires c.rounds != nil
 //@   modifies mapof(c.rounds), mapof(c.rcvd), heap("E:Str")
 
@@ -188,7 +194,7 @@ package beacon
 //@ func newRoundCache(id, p, s) (rc)
 //@   props C12
 //@   modifies nothing
-//@   ensures rc != nil && rc.sigs != nil && len(rc.sigs) == 0 && rc.scheme == s && rc.id == id
+//@   ensures rc != nil && rc.sigs != nil && len(rc.sigs) == 0 && rc.scheme == s && rc.id == id && isnew(rc) && (forall j int :: !has(rc.sigs, j))
 
 //@ func (*roundCache).flushIndex(r, idx)
 //@   props C12
@@ -201,6 +207,7 @@ package beacon
 //@   modifies mapof(r.sigs)
 //@   ensures [C03:duplicate-index-never-counts-twice] (forall j int :: old(has(r.sigs, j)) ==> has(r.sigs, j)) && len(r.sigs) <= old(len(r.sigs)) + 1 && (!added ==> len(r.sigs) == old(len(r.sigs)))
 //@   ensures [C03:append-adds-only-the-signers-own-slot] forall j int :: p != nil && j != crypto.idxOf(p.PartialSig) ==> has(r.sigs, j) == old(has(r.sigs, j))
+//@   ensures [C03,C12:a-refused-partial-changes-nothing-an-accepted-one-is-stored-under-its-signer] (!added ==> (forall j int :: has(r.sigs, j) == old(has(r.sigs, j)))) && (added && p != nil ==> has(r.sigs, crypto.idxOf(p.PartialSig)))
 
 //@ func (*partialCache).getCache(c, id, p) (rc, err)
 //@   props C12
@@ -209,6 +216,7 @@ package beacon
 //@   ensures [C12:getCache-keeps-cache-shape] cacheShape(c)
 //@   ensures [C12:getCache-returns-registered-round] err == nil ==> rc != nil && has(c.rounds, id) && c.rounds[id] == rc
 //@   ensures [C12:getCache-keeps-existing-rounds] forall r string :: old(has(c.rounds, r)) ==> has(c.rounds, r) && c.rounds[r] == old(c.rounds[r])
+//@   ensures [C12:a-round-cache-made-for-this-call-starts-empty] err == nil && !old(has(c.rounds, id)) ==> (forall j int :: !has(rc.sigs, j))
 
 //@ func (*partialCache).evictOldest(c, idx)
 //@   props C12
@@ -221,9 +229,20 @@ package beacon
 //@   ensures [C12:eviction-keeps-round-objects] forall r string :: has(c.rounds, r) ==> old(has(c.rounds, r)) && c.rounds[r] == old(c.rounds[r])
 //@   ensures [C12:eviction-keeps-other-signers-partials] forall x *roundCache, j int :: j != idx ==> has(x.sigs, j) == old(has(x.sigs, j))
 
+// accounting: every cached partial is counted against its signer (with cacheBounded this is what bounds the memory a signer
+// can occupy): a partial that Append newly caches is put last on its signer's list in the same call; a partial that was
+// cached already leaves the list as it is. cachedFor(c, r, j): round cache r holds a partial of signer j.
+//@ pred cachedFor(c, r, j) := has(c.rounds, r) && has(c.rounds[r].sigs, j)
+// ridOf(round, previous signature): the key of a round cache
+//@ ghost ridOf(int, bytes) string
+//@ extern roundID(round, previous) (r)
+//@   trusted formats the round number and the previous signature into the cache key: a function of its arguments
+//@   modifies nothing
+//@   ensures r == ridOf(round, previous)
 //@ func (*partialCache).Append(c, p) (err)
 //@   props C12
 //@   requires [C12] cacheShape(c) && cacheBounded(c) && p != nil
+//@   ensures [C12:a-newly-cached-partial-is-counted-against-its-signer-in-the-same-call] err == nil && cachedFor(c, id, idx) && !old(cachedFor(c, ridOf(p.Round, p.PreviousSignature), crypto.idxOf(p.PartialSig))) ==> has(c.rcvd, idx) && len(c.rcvd[idx]) > 0 && c.rcvd[idx][len(c.rcvd[idx]) - 1] == id
 //@   modifies mapof(c.rounds), mapof(c.rcvd), heap("E:Str"), heap("MD:map[int][]byte"), heap("MV:map[int][]byte"), heap("ML:map[int][]byte")
 //@   ensures [C12:append-keeps-cache-shape] cacheShape(c)
 //@   ensures [C12:append-keeps-per-signer-bound] cacheBounded(c)
@@ -403,7 +422,7 @@ package beacon
 //@ func SyncChain(l, store, req, stream) (err)
 //@   props C11
 //@   flags interleaved
-//@   requires [C11] ref(stream) == theStream() && ref(store) == theStore() && l != nil
+//@   requires [wf] ref(stream) == theStream() && ref(store) == theStore() && l != nil
 //@   rely grows stored(theStore())
 //@   call AddCallback#0: assert [C11:the-head-seen-when-the-stream-started-was-delivered-before-going-live] fromRound != 0 ==> sent(theStream(), last.Round)
 //@   call AddCallback#0: assert [C11:no-stored-round-is-skipped-between-catch-up-and-live-delivery] fromRound != 0 ==> (forall r int :: fromRound <= r && stored(theStore(), r) ==> sent(theStream(), r))
@@ -469,3 +488,8 @@ package beacon
 //@   props C04
 //@   requires t.clock != nil && common.validPeriod(t.period) && common.validGenesis(t.genesis)
 //@   call CurrentRound#0: assert [C04:a-tick-carries-the-round-of-the-instant-it-fired] arg0 == unixOf(nt.wall, nt.ext) && arg1 == t.period && arg2 == t.genesis
+
+// ---- C11: one worker per consumer runs the callbacks itself, one after the other, in queue order ---------------------------
+//@ func (*callbackStore).runWorker(c, jobChan)
+//@   props C11
+//@   flags sequential
